@@ -150,24 +150,25 @@ CLAIMS['C18'] = {
 
 # ---- obligations added after the third round of seeded changes (DESIGN.md 9.4); menus run natively per path (native(), DESIGN.md 9.2)
 EXTRA = {
- 'C01': 'O1.5: either algorithm octet of an accepted signature replaced by any of the 256 values never verifies truthy. O1.1-uidpkt: certifications over user-id PACKETS given by raw octets (Latin-1 vs UTF-8, NFC vs NFD, invalid UTF-8) verify only for the identical octets.',
- 'C02': 'O2.5 also covers a copy of the re-imported signature; O2.6: a certification still hashes to the signed octets after the user id packet travelled as octets, for names in any Unicode normalisation form.',
+ 'C01': 'O1.6: real RSA-2048: the genuine integer verifies for the signed document only, 7 integer mutants never. O1.1-attr2: certifications over attributes with two subpackets cover both. O1.5: either algorithm octet of an accepted signature replaced by any of the 256 values never verifies truthy. O1.1-uidpkt: certifications over user-id PACKETS given by raw octets (Latin-1 vs UTF-8, NFC vs NFD, invalid UTF-8) verify only for the identical octets.',
+ 'C02': 'O2.3 (left-16) now ranges over five hash algorithms and checks which algorithm the digest was asked for. O2.5 also covers a copy of the re-imported signature; O2.6: a certification still hashes to the signed octets after the user id packet travelled as octets, for names in any Unicode normalisation form.',
  'C03': 'O3.7: tag-9 (no MDC) data behind a public-key or passphrase session key from another producer decrypts to exactly its literal content. The public-key stand-in only decrypts an intact ciphertext object.',
- 'C04': 'O4.1b: the verdict on a packet object does not depend on earlier attempts on it (decrypt twice). O4.7: strings with lone surrogates never act as another passphrase.',
+ 'C04': 'O4.1c: streams of 8192k+20 octets (and neighbours) with one changed octet, real SHA-1. O4.1b: the verdict on a packet object does not depend on earlier attempts on it (decrypt twice). O4.7: strings with lone surrogates never act as another passphrase.',
  'C05': 'O5.4: using a key (sign / certify / encrypt / capability query) leaves every received region, the public twin and the export unchanged, for all 256 key-flags octets.',
- 'C06': 'O6.6b: text passphrases enter the real key derivation as their UTF-8 octets. O6.7: a foreign protected key exports its imported octets again after unlock and re-lock (usage 254 / 255).',
- 'C07': 'O7.1-tz: the derived public packet carries the same creation instant for zone-aware non-UTC and naive creation times. O7.2 also compares the exportable signature packets of private and public export octet for octet, incl. a key as another producer encoded it.',
- 'C09': 'O9.8: key creation time, literal modification time and the creation-time subpacket serialise the Unix time for 10 boundary instants x 6 zones and parse back. O9.9: a subpacket of a parsed signature grown or shrunk across a length-width boundary leaves every length field exact after one update_hlen().',
+ 'C06': 'O6.6c: one hash context per key part with its own zero preload (= O12.3a on the real derive_key). O6.6b: text passphrases enter the real key derivation as their UTF-8 octets. O6.7: a foreign protected key exports its imported octets again after unlock and re-lock (usage 254 / 255).',
+ 'C07': 'The fixture key carries own and third-party direct-key signatures. O7.1-tz: the derived public packet carries the same creation instant for zone-aware non-UTC and naive creation times. O7.2 also compares the exportable signature packets of private and public export octet for octet, incl. a key as another producer encoded it.',
+ 'C09': 'O9.2c: partial bodies whose final part has a one-, two- or five-octet length. O9.8: key creation time, literal modification time and the creation-time subpacket serialise the Unix time for 10 boundary instants x 6 zones and parse back. O9.9: a subpacket of a parsed signature grown or shrunk across a length-width boundary leaves every length field exact after one update_hlen().',
  'C10': 'O10.5 now includes armor header sets (also values containing ": " and CRLF input); O10.6: foreign line widths {64,76,75,60,33,2,1} and CRC lines {correct, =AAAA, one bit off}. Two genuine defects repaired (header parsing).',
  'C11': 'O11.1-long: 0..12 lines. O11.3 runs natively (texts of 0..4 / 5 characters). O11.3k: witness of the open finding KF-C11-non-ascii-readback.',
  'C13': 'Draws are matched to their uses in any order (drawn_fresh). O13.1b: every passphrase of a multi-passphrase message gets its own new salt. O13.3b: a key loaded with Simple S2K is re-protected with a salted specifier and new draws.',
- 'C14': 'Menu of 19 packets (adds a certification with a non-minimal hashed subpacket length and a non-exportable revocation). O14.2: signature by an unknown algorithm between any two menu packets.',
+ 'C14': 'O14.3: armored export / import with the CRC-24 forced to values with leading zero octets. Menu of 19 packets (adds a certification with a non-minimal hashed subpacket length and a non-exportable revocation). O14.2: signature by an unknown algorithm between any two menu packets.',
  'C15': 'Histories of 1..3 (quick) / up to 5 (thorough) steps; two primary-marked identities; the identity order is the same on every view.',
- 'C16': 'O16.1 covers the full 7^3 / 7^4 product and checks that the capabilities reported after the operation are unchanged. O16.6: a later certification by another key carrying key flags - also with its unhashed issuer id overwritten - never decides capabilities.',
+ 'C16': 'O16.7: private operations refuse after an unlock scope was left through an exception. O16.1 covers the full 7^3 / 7^4 product and checks that the capabilities reported after the operation are unchanged. O16.6: a later certification by another key carrying key flags - also with its unhashed issuer id overwritten - never decides capabilities.',
  'C17': 'O17.5: the real expiry test (no stand-ins, real Ed25519) for key ages around the process-zone offset. O17.6: real RSA: over-long, bit-flipped and incremented signature integers are bad.',
  'C18': 'O18.1-opaque: keys of an algorithm without a class. O18.4 includes a signing subkey a certify-only primary delegates to (both issuer fields name the subkey). O18.1-tz includes naive creation times under a non-UTC process zone. Two genuine defects repaired.',
  'C19': 'O19.3: real keys loaded from octets and armor, both halves in separate blobs or in one blob, a second key sharing the identity; fingerprints(keyhalf) and every alias after every step of 1..3 (quick) / 4 (thorough) step histories.',
  'C20': 'O20.2 covers the format markers b, t, u, l, 1, m.',
+ 'C08': 'O8.partial2: final part of a partial body with a two- or five-octet length. Canonical EC key bodies must come back octet for octet (leading zero octets of a coordinate included).',
 }
 for _k, _v in EXTRA.items():
     CLAIMS[_k]['text'] = CLAIMS[_k]['text'] + ' ' + _v
